@@ -63,6 +63,8 @@ pub struct TagIterator<R: Read, TSpec>
     internal_buffer_position: usize,
     tag_stack: Vec<ProcessingTag<TSpec>>,
     emission_queue: VecDeque<Result<(TSpec, usize), TagIteratorError>>,
+    // how far the emission queue has been searched for the end of the buffered master at its front: (queue index, nesting depth of masters with the same id)
+    buffered_master_search: (usize, usize),
     last_emitted_tag_offset: usize,
     has_determined_doc_path: bool,
 
@@ -103,6 +105,7 @@ impl<R: Read, TSpec> TagIterator<R, TSpec>
             internal_buffer_position: 0,
             tag_stack: Vec::new(),
             emission_queue: VecDeque::new(),
+            buffered_master_search: (1, 0),
             last_emitted_tag_offset: 0,
             has_determined_doc_path: false,
             emit_master_end_when_eof: true,
@@ -225,7 +228,12 @@ impl<R: Read, TSpec> TagIterator<R, TSpec>
 
     #[inline(always)]
     pub(crate) fn has_queued_items(&self) -> bool {
-        !self.emission_queue.is_empty()
+        // (the start of a buffered master waits in the queue until its end has been read - that is not an item yet)
+        match self.emission_queue.front() {
+            Some(Ok((tag, _))) => !(matches!(tag.as_master(), Some(Master::Start)) && self.tag_ids_to_buffer.contains(&tag.get_id())),
+            Some(Err(_)) => true,
+            None => false,
+        }
     }
 
     #[inline(always)]
@@ -482,10 +490,6 @@ impl<R: Read, TSpec> TagIterator<R, TSpec>
                         data_start: next_tag.data_start,
                     });
 
-                    if self.tag_ids_to_buffer.contains(&tag_id) {
-                        self.buffer_master(tag_id);
-                        return;
-                    }
                 }
             }
 
@@ -497,48 +501,59 @@ impl<R: Read, TSpec> TagIterator<R, TSpec>
         }
     }
 
-    fn buffer_master(&mut self, tag_id: u64) {
-        // The master being buffered was just pushed on the stack: report the offset of its tag, like Start/End do
-        let tag_start = self.tag_stack.last().map(|t| t.tag_start).unwrap_or_else(|| self.current_offset());
-        let pre_queue_len = self.emission_queue.len();
-
-        let mut position = pre_queue_len;
-        'endTagSearch: loop {
-            if position >= self.emission_queue.len() {
-                self.read_next();
-    
-                if position >= self.emission_queue.len() {
-                    // Like any other error inside a buffered master, the error replaces the partially collected children
-                    self.emission_queue.truncate(pre_queue_len);
-                    self.emission_queue.push_back(Err(TagIteratorError::UnexpectedEOF{ tag_start, tag_id: Some(tag_id), tag_size: None, partial_data: None }));
-                    return;
-                }
+    // The buffered master at the front of the emission queue ends with the first queued error, or with its `Master::End`
+    // (masters with the same id may be nested inside).  Returns the queue index of that item and whether it is the end.
+    // The search continues where it stopped the last time, so every queued item is looked at once.
+    fn find_buffered_master_end(&mut self, tag_id: u64) -> Option<(usize, bool)> {
+        let (mut position, mut depth) = self.buffered_master_search;
+        while let Some(item) = self.emission_queue.get(position) {
+            match item {
+                Err(_) => return Some((position, false)),
+                Ok((tag, _)) if tag.get_id() == tag_id => match tag.as_master() {
+                    Some(Master::Start) => depth += 1,
+                    Some(Master::End) if depth == 0 => return Some((position, true)),
+                    Some(Master::End) => depth -= 1,
+                    _ => {},
+                },
+                Ok(_) => {},
             }
-
-            while position < self.emission_queue.len() {
-                if let Some(r) = self.emission_queue.get(position) {
-                    match r {
-                        Err(_) => break 'endTagSearch,
-                        Ok(t) => {
-                            if t.0.get_id() == tag_id && matches!(t.0.as_master(), Some(Master::End)) {
-                                break 'endTagSearch;
-                            }
-                        }
-                    }
-                }
-                position += 1;
-            }
+            position += 1;
+            self.buffered_master_search = (position, depth);
         }
+        None
+    }
 
-        let mut children = self.emission_queue.split_off(pre_queue_len);
-        let split_to = position - pre_queue_len;
-        if children.get(split_to).unwrap().is_ok() {
-            let remaining = children.split_off(split_to).into_iter().skip(1);
-            let full_tag = Self::roll_up_children(tag_id, children.into_iter().map(|c| c.unwrap().0).collect());
-            self.emission_queue.push_back(Ok((full_tag, tag_start)));
-            self.emission_queue.extend(remaining);
-        } else {
-            self.emission_queue.extend(children.drain(split_to..).take(1));
+    // Makes sure the item at the front of the emission queue can be emitted.  A master that was requested as buffered is
+    // emitted as one `Master::Full` item: its `Master::Start` waits at the front of the queue until its end has been read.
+    // Returns false if that end has not been read yet and the source has nothing more for now - what has been read stays
+    // queued, and a later call continues where this one stopped.
+    fn assemble_buffered_master(&mut self) -> bool {
+        loop {
+            let (tag_id, tag_start) = match self.emission_queue.front() {
+                Some(Ok((tag, tag_start))) if matches!(tag.as_master(), Some(Master::Start)) && self.tag_ids_to_buffer.contains(&tag.get_id()) => (tag.get_id(), *tag_start),
+                _ => return true,
+            };
+            match self.find_buffered_master_end(tag_id) {
+                Some((end_index, true)) => {
+                    let children: Vec<TSpec> = self.emission_queue.drain(..=end_index).skip(1).take(end_index - 1).map(|c| c.unwrap().0).collect();
+                    self.emission_queue.push_front(Ok((Self::roll_up_children(tag_id, children), tag_start)));
+                    self.buffered_master_search = (1, 0);
+                    return true;
+                },
+                Some((error_index, false)) => {
+                    // Like any other error, an error inside a buffered master is what is emitted - in place of the partially read master
+                    self.emission_queue.drain(..error_index);
+                    self.buffered_master_search = (1, 0);
+                    return true;
+                },
+                None => {
+                    let queued_item_count = self.emission_queue.len();
+                    self.read_next();
+                    if self.emission_queue.len() == queued_item_count {
+                        return false;
+                    }
+                },
+            }
         }
     }
 
@@ -592,6 +607,9 @@ impl<R: Read, TSpec> Iterator for TagIterator<R, TSpec>
     fn next(&mut self) -> Option<Self::Item> {
         if self.emission_queue.is_empty() {
             self.read_next();
+        }
+        if !self.assemble_buffered_master() {
+            return None;
         }
         let next_item = self.emission_queue.pop_front();
         if let Some(Ok(ref tuple)) = next_item {
